@@ -618,6 +618,7 @@ class _BaseWindowForecaster(_SktimeForecaster):
         -------
         y_pred : pd.Series or pd.DataFrame
         """
+        y = check_y(y)
         if cv is not None:
             cv = check_cv(cv)
         else:
